@@ -449,6 +449,199 @@ example : NoDupPairs [⟨0, ⟨0, 2, 4⟩, ⟨0, 9, 9⟩⟩, ⟨1, ⟨0, 4, 6⟩
     rcases hx with rfl | rfl <;> simp
 
 
+/-! ### insertion order with duplicates: the pile intervals are still the same -/
+
+/-- chain of touching keys drawn from a set of keys -/
+inductive LinkedK (K : Key → Prop) : Key → Key → Prop
+  | refl {a} : K a → LinkedK K a a
+  | tail {a b c} : LinkedK K a b → K c → touches b c = true → LinkedK K a c
+
+def keysOf (fs : Feats) : Key → Prop := fun k => ∃ i, (i, k) ∈ fs
+
+theorem linkedK_of_linked {fs : Feats} (uniq : Uniq fs) {i j : Nat} (h : Linked fs i j) :
+    ∀ ki kj, (i, ki) ∈ fs → (j, kj) ∈ fs → LinkedK (keysOf fs) ki kj := by
+  induction h with
+  | refl hk =>
+    intro ki kj h1 h2
+    have := uniq _ ki kj h1 h2
+    subst this
+    exact .refl ⟨_, h1⟩
+  | tail _ t ih =>
+    intro ki kl h1 h2
+    obtain ⟨kj, kl', hj, hl, tt⟩ := t
+    have := uniq _ kl kl' h2 hl
+    subst this
+    exact .tail (ih ki kj h1 hj) ⟨_, h2⟩ tt
+
+theorem LinkedK.right_mem {K : Key → Prop} {a b : Key} (h : LinkedK K a b) : K b := by
+  cases h with
+  | refl kb => exact kb
+  | tail _ kb _ => exact kb
+
+theorem linked_of_linkedK {fs : Feats} (wf : WF fs) {a b : Key} (h : LinkedK (keysOf fs) a b) :
+    ∀ i j, (i, a) ∈ fs → (j, b) ∈ fs → Linked fs i j := by
+  induction h with
+  | refl ka =>
+    intro i j hi hj
+    have w := wf _ hi
+    have t : Touch fs i j := ⟨_, _, hi, hj, touches_iff.mpr ⟨rfl, w, w⟩⟩
+    exact Linked.of_touch t
+  | tail hab kc t ih =>
+    intro i l hi hl
+    obtain ⟨j, hj⟩ := hab.right_mem
+    exact Linked.tail (ih i j hi hj) ⟨_, _, hj, hl, t⟩
+
+theorem LinkedK.mono {K K' : Key → Prop} (sub : ∀ k, K k → K' k) {a b : Key} (h : LinkedK K a b) :
+    LinkedK K' a b := by
+  induction h with
+  | refl ka => exact .refl (sub _ ka)
+  | tail _ kc t ih => exact .tail ih (sub _ kc) t
+
+/-- Two pile lists satisfying the statement for feature tables with the same *keys* (ids and
+    multiplicities may differ) have the same pile intervals. -/
+theorem intervals_unique {fs fs' : Feats} {ps ps' : List Pile}
+    (nd : (fs.map (·.1)).Nodup) (nd' : (fs'.map (·.1)).Nodup) (wf : WF fs) (wf' : WF fs')
+    (same : ∀ k, keysOf fs k ↔ keysOf fs' k)
+    (h : IsComponents fs ps) (h' : IsComponents fs' ps') :
+    ∀ p ∈ ps, ∃ p' ∈ ps', p'.loc = p.loc ∧ p'.s = p.s ∧ p'.e = p.e := by
+  have uniq := uniq_of_nodup nd
+  have uniq' := uniq_of_nodup nd'
+  -- a member key of `p` that also is the key of a member of `p'` pulls every member key across
+  have pull : ∀ {fs fs' : Feats} {ps ps' : List Pile}, Uniq fs → WF fs' →
+      (∀ k, keysOf fs k → keysOf fs' k) → IsComponents fs ps → IsComponents fs' ps' →
+      ∀ p ∈ ps, ∀ p' ∈ ps', ∀ i i' k, i ∈ p.imgs → (i, k) ∈ fs → i' ∈ p'.imgs → (i', k) ∈ fs' →
+      ∀ m km, m ∈ p.imgs → (m, km) ∈ fs → ∃ m', m' ∈ p'.imgs ∧ (m', km) ∈ fs' := by
+    intro fs fs' ps ps' uniq wf' sub h h' p hp p' hp' i i' k hi hk hi' hk' m km hm hkm
+    have l : Linked fs i m := (h.share_iff i m k km hk hkm).mp ⟨p, hp, hi, hm⟩
+    have lk := (linkedK_of_linked uniq l k km hk hkm).mono sub
+    obtain ⟨m', hm'⟩ := sub km ⟨m, hkm⟩
+    have l' := linked_of_linkedK wf' lk i' m' hk' hm'
+    obtain ⟨q, hq, q1, q2⟩ := (h'.share_iff i' m' k km hk' hm').mpr l'
+    have hq' : q = p' := by
+      -- both q and p' contain i'; piles of ps' are pairwise separated or on different locations
+      rcases Biogo.Proofs.Piler.pairwise_trichotomy h'.disjoint hq hp' with e | e | e
+      · exact e
+      · have a1 := h'.inside q hq i' q1 k hk'
+        have a2 := h'.inside p' hp' i' hi' k hk'
+        have w := wf' _ hk'
+        simp only at w
+        have := e (by rw [← a1.1, ← a2.1])
+        omega
+      · have a1 := h'.inside q hq i' q1 k hk'
+        have a2 := h'.inside p' hp' i' hi' k hk'
+        have w := wf' _ hk'
+        simp only at w
+        have := e (by rw [← a1.1, ← a2.1])
+        omega
+    exact ⟨m', hq' ▸ q2, hm'⟩
+  intro p hp
+  obtain ⟨⟨i, k, hi, hk, ks⟩, ⟨j, kj, hj, hkj, ke⟩⟩ := h.ends p hp
+  obtain ⟨i', hk'⟩ := (same k).mp ⟨i, hk⟩
+  have : i' ∈ fs'.map (·.1) := List.mem_map.mpr ⟨(i', k), hk', rfl⟩
+  obtain ⟨p', hp', hi'⟩ := List.mem_flatMap.mp (h'.once.mem_iff.mpr this)
+  have fwd := pull uniq wf' (fun k hk => (same k).mp hk) h h' p hp p' hp' i i' k hi hk hi' hk'
+  have bwd := pull uniq' wf (fun k hk => (same k).mpr hk) h' h p' hp' p hp i' i k hi' hk' hi hk
+  obtain ⟨⟨a, ka, ha, hka, kas⟩, ⟨b, kb, hb, hkb, kbe⟩⟩ := h'.ends p' hp'
+  have i1 := h.inside p hp i hi k hk
+  have i2 := h'.inside p' hp' i' hi' k hk'
+  obtain ⟨j', hj', hkj'⟩ := fwd j kj hj hkj
+  have i3 := h'.inside p' hp' j' hj' kj hkj'
+  obtain ⟨a', ha', hka'⟩ := bwd a ka ha hka
+  have i4 := h.inside p hp a' ha' ka hka'
+  obtain ⟨b', hb', hkb'⟩ := bwd b kb hb hkb
+  have i5 := h.inside p hp b' hb' kb hkb'
+  exact ⟨p', hp', by omega, by omega, by omega⟩
+
+/-- every key of the history is the key of an accepted feature (the first pair that carries
+    it is accepted), and accepted features carry keys of the history -/
+theorem seen_in_feats (p : Piler) (xs : List PairIn)
+    (hinv : ∀ a b, (a, b) ∈ p.seen → keysOf p.feats a ∧ keysOf p.feats b) :
+    (∀ a b, (a, b) ∈ (p.addAll xs).1.seen → keysOf (p.addAll xs).1.feats a ∧ keysOf (p.addAll xs).1.feats b) ∧
+    (∀ x ∈ xs, keysOf (p.addAll xs).1.feats x.a ∧ keysOf (p.addAll xs).1.feats x.b) := by
+  induction xs generalizing p with
+  | nil => exact ⟨hinv, fun x hx => by cases hx⟩
+  | cons x xs ih =>
+    simp only [Piler.addAll]
+    have mono : ∀ k, keysOf p.feats k → keysOf (p.add x).1.feats k := by
+      rintro k ⟨i, hi⟩
+      rcases add_feats p x with e | e <;> rw [e]
+      · exact ⟨i, hi⟩
+      · exact ⟨i, List.mem_append_left _ hi⟩
+    have hinv' : ∀ a b, (a, b) ∈ (p.add x).1.seen →
+        keysOf (p.add x).1.feats a ∧ keysOf (p.add x).1.feats b := by
+      intro a b hab
+      rcases add_seen p x with ⟨_, e⟩ | ⟨acc, e⟩
+      · rw [e] at hab
+        exact ⟨mono _ (hinv a b hab).1, mono _ (hinv a b hab).2⟩
+      · rw [e] at hab
+        rcases List.mem_cons.mp hab with e1 | h1
+        · have ea : a = x.a := (Prod.mk.inj e1).1
+          have eb : b = x.b := (Prod.mk.inj e1).2
+          subst ea; subst eb
+          rcases add_feats p x with e' | e'
+          · -- accepted pairs append their features
+            exfalso
+            have hs : (p.add x).1.seen = p.seen := by
+              unfold Piler.add at e' ⊢
+              split
+              · rfl
+              · rename_i c
+                rw [if_neg c] at e'
+                have := congrArg List.length e'
+                simp at this
+            rw [hs] at e
+            have := congrArg List.length e
+            simp at this
+          · rw [e']
+            exact ⟨⟨2 * x.id, by simp⟩, ⟨2 * x.id + 1, by simp⟩⟩
+        · exact ⟨mono _ (hinv a b h1).1, mono _ (hinv a b h1).2⟩
+    obtain ⟨r1, r2⟩ := ih (p.add x).1 hinv'
+    refine ⟨r1, ?_⟩
+    intro y hy
+    rcases List.mem_cons.mp hy with rfl | hy
+    · -- y itself: accepted, or rejected because the pair is in `seen`
+      have monoAll : ∀ k, keysOf (p.add y).1.feats k → keysOf ((p.add y).1.addAll xs).1.feats k := by
+        rintro k ⟨i, hi⟩; exact ⟨i, feats_mono _ xs _ hi⟩
+      rcases add_seen p y with ⟨rej, _⟩ | ⟨_, e⟩
+      · rcases (add_rejected_iff p y).mp rej with c | c
+        · exact ⟨monoAll _ (mono _ (hinv _ _ c).1), monoAll _ (mono _ (hinv _ _ c).2)⟩
+        · exact ⟨monoAll _ (mono _ (hinv _ _ c).2), monoAll _ (mono _ (hinv _ _ c).1)⟩
+      · have := hinv' y.a y.b (by rw [e]; exact List.mem_cons_self ..)
+        exact ⟨monoAll _ this.1, monoAll _ this.2⟩
+    · exact r2 y hy
+
+theorem keys_of_history (xs : List PairIn) (k : Key) :
+    keysOf (adds xs).feats k ↔ ∃ x ∈ xs, k = x.a ∨ k = x.b := by
+  constructor
+  · rintro ⟨i, hi⟩
+    rcases feats_origin Piler.new xs (i, k) hi with h | ⟨x, hx, h, _⟩
+    · simp [Piler.new] at h
+    · refine ⟨x, hx, ?_⟩
+      rcases h with e | e
+      · exact Or.inl (Prod.mk.inj e).2
+      · exact Or.inr (Prod.mk.inj e).2
+  · rintro ⟨x, hx, rfl | rfl⟩
+    · exact ((seen_in_feats Piler.new xs (by simp [Piler.new])).2 x hx).1
+    · exact ((seen_in_feats Piler.new xs (by simp [Piler.new])).2 x hx).2
+
+/-- **Insertion order is irrelevant for the pile intervals even with duplicate pairs**: any two
+    histories that are permutations of each other (duplicates, in either orientation, included)
+    report the same pile intervals on every location. -/
+theorem insertion_order_irrelevant_intervals (xs ys : List PairIn) (perm : xs.Perm ys) (wf : WFIn xs)
+    (nd : (xs.map (·.id)).Nodup) :
+    ∀ p ∈ (adds xs).piles none, ∃ p' ∈ (adds ys).piles none,
+      p'.loc = p.loc ∧ p'.s = p.s ∧ p'.e = p.e := by
+  have wf' : WFIn ys := fun y hy => wf y (perm.mem_iff.mpr hy)
+  have nd' : (ys.map (·.id)).Nodup := (perm.map _).nodup_iff.mp nd
+  refine intervals_unique (feats_nodup xs nd) (feats_nodup ys nd')
+    (addAll_inv new_inv xs wf).wf (addAll_inv new_inv ys wf').wf ?_
+    (piles_are_components xs wf nd) (piles_are_components ys wf' nd')
+  intro k
+  rw [keys_of_history, keys_of_history]
+  constructor
+  · rintro ⟨x, hx, h⟩; exact ⟨x, perm.mem_iff.mp hx, h⟩
+  · rintro ⟨x, hx, h⟩; exact ⟨x, perm.mem_iff.mpr hx, h⟩
+
 /-! ### the driver's expectations are the model's results -/
 
 open Biogo.Drive.C16 in
